@@ -63,6 +63,8 @@ class Params:
 
     @staticmethod
     def value(kind, v):
+        if v == 10:
+            return float("nan")           # of numeric type, invalid for every component
         if kind == "phase":
             return "not-a-number" if v == 9 else phase(v)
         return 1.5 if v == 9 else {0: 0.0, 1: 0.5, 2: 1.0}[v]
